@@ -366,15 +366,37 @@ func (p *pkgInfo) profile(fd *ast.FuncDecl, root ast.Node) (evs []event, errs []
 		return "expr:" + src(e)
 	}
 	var stack []ast.Node
+	// a statement or call that sits in the body of a `for` / `range` loop may run any number of
+	// times: it is listed twice, so that "at most one statement" stops being true of it
+	inLoop := func() bool {
+		for i := len(stack) - 1; i > 0; i-- {
+			if blk, ok := stack[i].(*ast.BlockStmt); ok {
+				switch l := stack[i-1].(type) {
+				case *ast.ForStmt:
+					if l.Body == blk {
+						return true
+					}
+				case *ast.RangeStmt:
+					if l.Body == blk {
+						return true
+					}
+				}
+			}
+		}
+		return false
+	}
 	ast.Inspect(root, func(n ast.Node) bool {
 		if n == nil {
 			top := stack[len(stack)-1]
-			stack = stack[:len(stack)-1]
 			if c, ok := top.(*ast.CallExpr); ok {
 				if callee := p.resolve(env, c); callee != nil {
 					evs = append(evs, event{true, funcKey(callee)})
+					if inLoop() {
+						evs = append(evs, event{true, funcKey(callee)})
+					}
 				}
 			}
+			stack = stack[:len(stack)-1]
 			return true
 		}
 		stack = append(stack, n)
@@ -382,6 +404,9 @@ func (p *pkgInfo) profile(fd *ast.FuncDecl, root ast.Node) (evs []event, errs []
 		case *ast.Ident:
 			if _, ok := p.sql[x.Name]; ok && strings.HasPrefix(x.Name, "sql") {
 				evs = append(evs, event{false, x.Name})
+				if inLoop() {
+					evs = append(evs, event{false, x.Name})
+				}
 			}
 		case *ast.BinaryExpr:
 			if (x.Op == token.EQL || x.Op == token.NEQ) && (reErrSel.MatchString(src(x.X)) || reErrSel.MatchString(src(x.Y))) {
